@@ -194,6 +194,29 @@ def stmt_faults():
     F["F18aa"] = ([cond(cmp_("==", P("q", "count"), ("str", "a")))], 0, None)
     F["F18ab"] = ([cond(cmp_("!=", P("q", "count"), P("q", "flag")))], 0, None)
     F["F18ac"] = ([cond(cmp_("<", cmp_("+", ("paren", cmp_("<", P("q", "count"), n(2))), n(1)), n(3)))], 0, None)
+    # two string operands under And / Or (attribute / attribute, attribute / literal, literal / attribute)
+    F["F18ad"] = ([cond(cmp_("And", P("q", "label"), P("q", "label")))], 0, None)
+    F["F18ae"] = ([("while", cmp_("Or", P("q", "label"), ("str", "a")), [svc()])], 0, None)
+    F["F18af"] = ([cond(cmp_("And", ("str", "a"), P("q", "label")))], 0, None)
+    F["F18ag"] = ([("while", cmp_("Or", P("q", "inner", "n"), cmp_("And", P("q", "label"), P("q", "label"))), [svc()])], 0, None)
+    # ill-typed / unresolvable operand of == / != whose other side is a string literal
+    F["F18ah"] = ([cond(cmp_("==", P("q", "inner"), ("str", "done")))], 0, None)
+    F["F18ai"] = ([cond(cmp_("!=", ("str", "done"), P("q", "items")))], 0, None)
+    F["F18aj"] = ([("while", cmp_("==", ("paren", cmp_("+", P("q", "label"), n(1))), ("str", "done")), [svc()])], 0, None)
+    F["F05j"] = ([cond(cmp_("!=", ("paren", cmp_("+", P("q", "nosuch"), n(1))), ("str", "done")))], 0, None)
+    F["F04j"] = ([cond(cmp_("==", ("str", "done"), ("paren", cmp_("<", P("zz", "count"), n(1)))))], 0, None)
+    # an undeclared variable named like the counting variable of an earlier loop of the same task
+    F["F04h"] = ([("count", False, "k", ("int", 2), [svc()]), svc([("var", "k")])], 1, None)
+    F["F04i"] = ([("cond", ("bool", True), [("count", False, "k", ("int", 1), [svc()])], []),
+                  ("call", "fcallee", [("var", "q"), ("var", "k")], [("x1", FIN)])], 1, None)
+    F["F04k"] = ([("count", True, "k", ("int", 2), [("call",) + GOOD_CALL]),
+                  ("parallel", [GOOD_CALL, ("fcallee", [("var", "q"), ("var", "k")], [("x2", FIN)])])], 1, 1)
+    # a faulty literal whose JSON text is token-identical to an earlier valid literal of another struct
+    F["F08s"] = ([svc([("lit", "Fin", fin_json())], name="Stw"), svc([("lit", "Ftw", fin_json())])], 1, None)
+    F["F08t"] = ([svc([("lit", "Ftw", fin_json(n=("str", "x")))], name="Stw"),
+                  ("call", "fcallee", [("var", "q"), P("q", "count")], [("x1", FIN)]),
+                  svc([("var", "x1"), ("lit", "Fin", fin_json(n=("str", "x")))])], 2, None)
+    F["F02b"] = ([svc([("lit", "Fin", fin_json())], name="Stw"), svc([("lit", "Nosuch", fin_json())])], 1, None)
     F["F20a"] = ([("count", True, "k", ("int", 2), [svc()])], 0, None)
     F["F20b"] = ([("count", True, "k", ("int", 2), [("call",) + GOOD_CALL, ("call",) + GOOD_CALL])], 0, None)
     F["F20c"] = ([("count", True, "k", ("int", 2), [("count", False, "m", ("int", 1), [svc()])])], 0, None)
@@ -202,10 +225,13 @@ def stmt_faults():
 
 
 STMT_FAULTS = stmt_faults()
+# further structs some entries need (appended after the support structs)
+FTW = {"name": "Ftw", "attrs": [("n", ("plain", "string")), ("ok", ("plain", "boolean")), ("pair", ("array", "number", 2))]}
+EXTRA_STRUCTS = {"F08s": [FTW], "F08t": [FTW]}
 # catalogue entries whose mutants satisfy the documented rules (wf_dec) and still have to be rejected
 WF_BUT_REJECTED = {"F18t", "F18u", "F18v", "F18w", "F18x", "F18y", "F18z"}
 
-DEF_FAULTS = ["F03a", "F03b", "F03e", "F03f", "F10a", "F11a", "F12a", "F13a", "F14a", "F15a",
+DEF_FAULTS = ["F03a", "F03b", "F03e", "F03f", "F10a", "F11a", "F12a", "F13a", "F14a", "F15a", "F15b", "F15c",
               "F19a", "F19b", "F19c", "F19d", "F19e", "F19f", "F19g"]
 ALL_FAULTS = sorted(STMT_FAULTS) + DEF_FAULTS
 
@@ -258,6 +284,9 @@ def inject(prog, rng, fault, pos_kind, depth=None):
 def inject_stmt(p, rng, fault, pos_kind, depth=None):
     after, fidx, sub = STMT_FAULTS[fault]
     after = gen_check.clone(after)
+    for sd in EXTRA_STRUCTS.get(fault, []):
+        p["structs"].append(gen_check.clone(sd))
+        p["order"].append(("struct", len(p["structs"]) - 1))
     seq = [svc(outs=[("q", FQ)], name="Sq")] + after
     d = rng.randint(0, 3) if depth is None else depth
     wrappers = [rng.choice(WRAPS) for _ in range(d)]
@@ -348,6 +377,12 @@ def inject_def(p, rng, fault):
         info["span"] = "file"
     elif fault == "F15a":         # undeclared task output
         ti = add_task(p, "tnew", [svc(name="Sn")], outs=["zz"])
+        info["span"] = ("span_task", ti)
+    elif fault in ("F15b", "F15c"):   # task output named like the counting variable of a loop of the task
+        loop = ("count", False, "k", ("int", 2), [svc(name="Sn")])
+        if fault == "F15c":
+            loop = ("cond", ("bool", False), [svc(name="Sm")], [("while", ("bool", False), [loop])])
+        ti = add_task(p, "tnew", [svc(name="So"), loop], outs=["k"])
         info["span"] = ("span_task", ti)
     elif fault == "F19a":         # self recursion
         ti = add_task(p, "tnew", [svc(name="Sn"), ("call", "tnew", [], [])])
